@@ -54,7 +54,7 @@ def cases(draw, nums, invalid_kinds=(None,), pmax=4, kmax=4):
     c = draw(gen.curves(0, pmax, kmax, nums=nums))
     invalid = draw(st.sampled_from(list(invalid_kinds)))
     nodes = draw(node_multiset(c["U"], c["p"], invalid))
-    return {"curve": c, "nodes": nodes, "invalid": invalid,
+    return {"curve": c, "nodes": nodes, "invalid": invalid, "twin_first": draw(st.integers(0, 2)) == 0,
             "container": draw(st.sampled_from(["list", "tuple", "ndarray"]))}
 
 
@@ -97,6 +97,14 @@ def check(case, out):
     if any(nodes.count(z) >= 2 for z in nodes):
         out.cls("repeated-node")
     multi = len(bk) > 2
+    if exact and case.get("twin_first"):
+        # history: the same request on a float twin first (value-keyed caches must not leak floats)
+        out.cls("float-twin-first")
+        try:
+            lib.build_curve(dict(c, num="float")).knot_insert([float(z) for z in nodes])
+        except Exception as exc0:
+            if not lib.from_library(exc0):
+                raise
     snap = lib.snapshot(curve)
     try:
         curve.knot_insert(arg)
